@@ -12,6 +12,7 @@ Driver for merge / stub on top of the overlay model (C05, C10).
     stub                      replace the current record by the stub of it (values `empty`) -> ok | err
     skel                      skeleton (paths, kinds, attribute names) of the current record
     ncont                     number of containers
+    wf                        does the view satisfy the hypothesis `ViewReplayable` of the C05/C10 theorems
     save                      remember the current record
     restore                   go back to the remembered record
     graft                     put the newest container of the current record on top of the remembered
@@ -104,6 +105,7 @@ def step (s : St) : List String → St × String
     match stubCont "empty" s.cur with
     | .ok m => ({ s with cur := m }, "ok")
     | .error _ => (s, "err")
+  | ["wf"] => (s, if replayableB (Overlay.listing s.cur) then "wf T" else "wf F")
   | ["ncont"] => (s, s!"n {s.cur.length}")
   | ["save"] => ({ s with saved := s.cur }, "ok")
   | ["restore"] => ({ s with cur := s.saved }, "ok")
